@@ -12,6 +12,9 @@ type loop struct {
 	continuePos []int
 	breakPos    []int
 	isRangeLoop bool
+	// Number of switch statements entered inside this loop whose value is
+	// still on the stack at the current position.
+	switchDepth int
 }
 
 func (l *loop) end() {
